@@ -75,6 +75,10 @@ def mc_case(draw):
     scn["table"][0][0] = 1
     scn["calc"] = "fast"
     scn["names"] = list(draw(st.permutations(["zeta", "alpha", "mid", "beta"])))
+    for e in scn["entries"]:
+        for leaf in S.expr_leaves(e):
+            if leaf.get("t") == "hmc":
+                leaf["forced"] = draw(st.booleans())  # momenta rescaled to the exact kinetic temperature
     return {"scn": scn, "steps": draw(st.integers(3, 12)), "g1": draw(st.integers(0, 2 ** 32 - 1)), "g2": draw(st.integers(0, 2 ** 32 - 1))}
 
 
@@ -82,7 +86,7 @@ def _digest(atoms, mc, energy):
     return (atoms.positions.tobytes(), atoms.cell.array.tobytes(), atoms.numbers.tobytes(), repr(list(getattr(mc, "move_history", []))), repr(energy))
 
 
-def run_mc_once(case, seed, gstate, noise):
+def run_mc_once(case, seed, gstate, noise, reuse=False):
     scn = dict(case["scn"], seed=seed)
     np.random.seed(gstate)
     random.seed(gstate)
@@ -90,7 +94,16 @@ def run_mc_once(case, seed, gstate, noise):
     recs = []
     with warnings.catch_warnings():
         warnings.simplefilter("ignore")
-        mc, atoms, _ = M.build_simulation(scn, logfile=log, criteria="real")
+        prebuilt = None
+        if reuse:
+            # the move objects first serve another simulation (other seed, same configuration), then this one
+            mc0, _a0, info0 = M.build_simulation(dict(scn, seed=seed + 977), logfile=None, criteria="real")
+            for step in mc0.irun(min(case["steps"], 4)):
+                for _ in step:
+                    pass
+            mc0.close()
+            prebuilt = info0["moves"]
+        mc, atoms, _ = M.build_simulation(scn, logfile=log, criteria="real", prebuilt_moves=prebuilt)
         for step in mc.irun(case["steps"]):
             for _ in step:
                 if noise:
@@ -156,7 +169,23 @@ def run_mc(case):
 
     labels = ["ens:" + scn["ensemble"], "seed:" + seed_class(scn["seed"])]
     key = "|".join([scn["ensemble"], ",".join(shape(e) for e in scn["entries"]), seed_class(scn["seed"]), str(case["steps"]), str(scn["max_cycles"])])
-    return compare_runs(run_mc_once, case, scn["seed"], labels, key)
+    out = compare_runs(run_mc_once, case, scn["seed"], labels, key)
+    leaves = [l for e in scn["entries"] for l in S.expr_leaves(e)]
+    if any(l.get("forced") for l in leaves):
+        out["labels"] = list(out["labels"]) + ["hmc-forced-temperature"]
+    if out.get("violation") is None and not out.get("discard") and scn["ensemble"] != "GrandCanonical" and "alias_of" not in scn:
+        # configuration objects that already served another simulation are still the same configuration
+        try:
+            a, ta = run_mc_once(case, scn["seed"], case["g1"], False)
+            r, tr = run_mc_once(case, scn["seed"], case["g1"], False, reuse=True)
+        except Exception:
+            return out
+        out["labels"] = list(out["labels"]) + ["moves-reused"]
+        if a != r or ta != tr:
+            i = next((k for k, (x, y) in enumerate(zip(a, r)) if x != y), min(len(a), len(r)))
+            out["nontrivial"] = True
+            out["violation"] = {"kind": "same-seed-differs:reused-move-objects", "detail": f"seed {scn['seed']}: a simulation whose move objects had served another simulation before differs from one with fresh move objects at record {i}"}
+    return out
 
 
 # ------------------------------------------------------------------ force bias
